@@ -146,6 +146,8 @@ def _expr(s):
     # rule 9: casts
     s = re.sub(r'<object>\s*', '', s)
     s = re.sub(r'<void\s*\*>\s*', '', s)
+    # rule 16: a pointer used as a number (`<size_t>item`: the address of a chart item)
+    s = re.sub(r'<(?:size_t|uintptr_t|Py_ssize_t|unsigned\s+long(?:\s+long)?|long)>\s*([A-Za-z_][\w\.]*)', r'_rt.addr(\1)', s)
     # rule 10: address-of
     s = re.sub(r'&(c_\w+)', r'\1', s)
     # rule 11: NULL
